@@ -372,6 +372,8 @@ def c20(ctx):
                 if not o.get("error") and kinds != ["hup", "initial", "respawn"]:
                     ctx.notes.append("server run %s observed only generations %s" % (o["spec"]["tag"], kinds))
             ctx.coverage["server_worker_observations"] = nserver
+        import shutil
+        shutil.rmtree(os.path.join(drv.SCRATCH, "wtmp"), ignore_errors=True)
         judge(ctx, traces)
         for t in traces[:1] + traces[len(rows):len(rows) + 1] + traces[-1:]:
             r = t[0]
